@@ -336,6 +336,20 @@ func TestC18(t *testing.T) {
 			if err := oracle(c); err != nil {
 				hx.Fail(t, run, c, err)
 			}
+			pool.Add(c)
 		})
 	})
+	if t.Failed() {
+		return
+	}
+	t.Run("concurrent", func(t *testing.T) {
+		// several password checks at once (several clients in one process)
+		items := pool.Items
+		if len(items) > run.Pick(6, 40) {
+			items = items[:run.Pick(6, 40)]
+		}
+		hx.RunConcurrent(t, run, items, 4, 1, oracle)
+	})
 }
+
+var pool hx.Pool[Case]
